@@ -664,7 +664,7 @@ FILE_TAILS = ["\n", "\n", "", "\n# end of file", "  # trailing comment", "\n\n\n
 def materialize(world, root: str, schema_partition=None, queries_partition=None, creation_order_seed: Optional[int] = None,
                 extra_cfg: Optional[Dict[str, Any]] = None, remote_url: Optional[str] = None,
                 tail_seed: Optional[int] = None, decoys_seed: Optional[int] = None, symlink_seed: Optional[int] = None,
-                linked_file_seed: Optional[int] = None) -> Dict[str, Any]:
+                linked_file_seed: Optional[int] = None, single_file_names: Optional[Tuple[str, str]] = None) -> Dict[str, Any]:
     """Write the project into `root`.  Returns {"argv", "config_path", "targets", "cfg"}."""
     import random
     os.makedirs(root, exist_ok=True)
@@ -680,8 +680,9 @@ def materialize(world, root: str, schema_partition=None, queries_partition=None,
         cfg["schema_path"] = "~/schema.graphql"
         writes.append((os.path.join("~", "schema.graphql"), sdl_of(world)))
     else:
-        cfg["schema_path"] = "schema.graphql"
-        writes.append(("schema.graphql", sdl_of(world)))
+        sname = single_file_names[0] if single_file_names else "schema.graphql"
+        cfg["schema_path"] = sname
+        writes.append((sname, sdl_of(world)))
     if world["strategy"] == "client":
         qdefs = [o["text"] for o in world["ops"]] + [f["text"] for f in world["frags"]]
         if qdefs or not cfg.get("enable_custom_operations"):
@@ -693,8 +694,9 @@ def materialize(world, root: str, schema_partition=None, queries_partition=None,
                 cfg["queries_path"] = "$GRAPHQL_SOURCES/queries.graphql"
                 writes.append((os.path.join("$GRAPHQL_SOURCES", "queries.graphql"), queries_of(world)))
             else:
-                cfg["queries_path"] = "queries.graphql"
-                writes.append(("queries.graphql", queries_of(world)))
+                qname = single_file_names[1] if single_file_names else "queries.graphql"
+                cfg["queries_path"] = qname
+                writes.append((qname, queries_of(world)))
         cfg.setdefault("target_package_path", "out")
         os.makedirs(os.path.join(root, "out"), exist_ok=True)
     else:
